@@ -52,7 +52,21 @@ static std::string decorate(Rng& r, const std::string& name, std::string& how) {
 static std::string negative(Rng& r, const std::vector<std::string>& names, std::string& how) {
   const std::string& n = names[(size_t)r.below((int)names.size())];
   std::string s = n;
-  switch (r.below(13)) {
+  switch (r.below(14)) {
+    case 13: {
+      // the name wrapped in a matching pair of characters (quotes as in a namelist or input file, brackets, a trailing newline ...): not a name (seeded C13-m11)
+      how = "wrapped-in-a-pair";
+      static const char* PAIRS[] = {"''", "\"\"", "``", "()", "[]", "{}", "<>", "||", "**", "//", "__", "..", "::", "##", "\n\n", "\t\t", "\r\n", "\"'", "' ", " \"", "%%", ",,", ";;"};
+      const char* pr = PAIRS[r.below(23)];
+      std::string body = n;
+      if (r.coin()) { for (char& c : body) if (c >= 'a' && c <= 'z' && r.below(3) == 0) c = char(c - 'a' + 'A'); }
+      int form = r.below(4);   // both ends, left only, right only, both ends with blanks/dashes outside
+      s = body;
+      if (form != 2) s = std::string(1, pr[0]) + s;
+      if (form != 1) s += pr[1];
+      if (form == 3) s = (r.coin() ? "- " : " ") + s + (r.coin() ? " " : " -");
+      break;
+    }
     case 12: {
       // a catalogue name (possibly decorated) followed or interrupted by a NUL byte and more characters: as a std::string it is NOT a name
       how = "embedded-nul";
